@@ -26,7 +26,7 @@ T = {
     "base64.find_Base64Decode": [("q", Tmpl(b"Base64Decode('Q", 3, b"')"), "both", 300)],
     "base64.find_FromBase64String": [("q", Tmpl(b"FromBase64String('Q", 3, b"')"), "both", 300),
                                      ("xor", Tmpl(b"FromBase64String('QUJD') -bxor ", 3), "both", 300)],
-    "chr.find_chr": [("n", Tmpl(b"chr(", 4, b")"), "both", 300), ("w", Tmpl(b"ChrW(", 5, b")"), "thorough", 1500)],
+    "chr.find_chr": [("n", Tmpl(b"chr(", 4, b")"), "both", 300), ("surr", Tmpl(b"Chr(55", (3, "digit"), b")"), "both", 300), ("w", Tmpl(b"ChrW(", 5, b")"), "thorough", 1500)],
     "codec.find_utf16": [("pairs", Tmpl(b"a\0b\0c\0d\0e\0", 4, b"h\0"), "both", 300), ("free", Tmpl(b"a\0b\0c\0d\0e\0f\0", 3), "both", 300)],
     "concat.find_concat": [("mid", Tmpl(b"'a'", 3, b"'b'"), "both", 300), ("lit", Tmpl(b"'", 2, b"'+\"", 2, b"\""), "both", 300)],
     "filename.find_executable_name": [("n", Tmpl(b" ", 3, b".exe", 1), "both", 300)],
